@@ -250,6 +250,7 @@ fn faults_with_kind(cex: &Value) -> Result<String, String> {
       out.push(line);
     }
     out.extend(purge_non_jwk(&did));
+    out.extend(generate_odd_fragments(&did));
     for with_refs in [false, true] {
       for scope in [MethodScope::VerificationMethod, MethodScope::authentication()] {
         for psched in &schedules {
@@ -282,6 +283,41 @@ fn faults_with_kind(cex: &Value) -> Result<String, String> {
 
 /// one purge under `sched` (occurrence numbers count from the purge call) in a freshly built world
 /// purge of an id that exists only as a reference (its method lives elsewhere): MethodNotFound, document unchanged
+/// generate_method with fragments that cannot become a method id (empty, "#", with spaces, ...): an error, and nothing is left behind
+/// in the key store - or success with the method in place; never an error with an orphaned key
+fn generate_odd_fragments(did: &CoreDID) -> Vec<String> {
+  let mut out = Vec::new();
+  for frag in ["#", "", "a b", "#a b", "##", "#é", " ", "#ok-fragment"] {
+    for scope in [MethodScope::VerificationMethod, MethodScope::authentication()] {
+      let f = Faults { n: Rc::new(Cell::new(100_000)), fail: Rc::new(vec![]), log: Rc::new(Default::default()) };
+      let keys = FKeys(JwkMemStore::new(), f.clone());
+      let st = Storage::new(keys, FIds(KeyIdMemstore::new(), f.clone()));
+      let mut doc = CoreDocument::builder(Object::new()).id(did.clone()).build().unwrap();
+      let before = snapshot(&doc);
+      let res = block_on(doc.generate_method(&st, JwkMemStore::ED25519_KEY_TYPE, JwsAlgorithm::EdDSA, Some(frag), scope));
+      let stored = block_on(st.key_storage().0.count());
+      match res {
+        Ok(fr) => {
+          let id = did.to_url().join(format!("#{}", fr.trim_start_matches('#'))).ok();
+          if id.as_ref().and_then(|i| doc.resolve_method(i, None)).is_none() || stored != 1 {
+            out.push(format!("[generate-fragment] fragment {frag:?}: Ok({fr:?}) but the method does not resolve / {stored} keys stored"));
+          }
+        }
+        Err(JwkStorageDocumentError::UndoOperationFailed { .. }) => {}
+        Err(e) => {
+          if stored != 0 {
+            out.push(format!("[generate-fragment] fragment {frag:?} (scope {scope:?}): error ({e}) and {stored} key(s) left in the key store"));
+          }
+          if snapshot(&doc) != before {
+            out.push(format!("[generate-fragment] fragment {frag:?}: error returned but the document changed"));
+          }
+        }
+      }
+    }
+  }
+  out
+}
+
 /// purge of a method that holds no JWK (nothing is stored for it): an error, and the document stays as it was - in every
 /// scope, with and without references to it
 fn purge_non_jwk(did: &CoreDID) -> Vec<String> {
@@ -357,7 +393,12 @@ fn purge_world(did: &CoreDID, scope: MethodScope, with_refs: bool, sched: &[u32]
   let tag = if refs { "[purge-refs]" } else { "[purge]" };
   Ok(match res {
     Ok(()) => {
-      if doc.resolve_method(&id, None).is_some() || has_key || has_id {
+      let still_referenced = [doc.authentication(), doc.assertion_method(), doc.key_agreement(), doc.capability_delegation(), doc.capability_invocation()]
+        .iter()
+        .any(|set| set.iter().any(|r| r.id() == &id));
+      if still_referenced {
+        Some(format!("{tag} schedule {sched:?} ({trace}): Ok but a relationship still refers to the purged method"))
+      } else if doc.resolve_method(&id, None).is_some() || has_key || has_id {
         Some(format!("{tag} schedule {sched:?} ({trace}): Ok but method/key/key id remain ({}, {has_key}, {has_id})", doc.resolve_method(&id, None).is_some()))
       } else {
         None
